@@ -458,7 +458,10 @@ class SymRat:
 
     def __round__(self, nd=None):
         if nd is not None:
-            raise Unsupported("round(x, n)")
+            if not isinstance(nd, int) or nd < 0 or nd > 9:
+                raise Unsupported("round(x, %r)" % (nd,))
+            scaled = (self * (10 ** nd)).__round__()
+            return SymRat(toint(scaled), 10 ** nd)
         if self.den == 1:
             return SymInt(self.num)
         q, r = self._qr()
